@@ -50,7 +50,16 @@ namespace occa {
     }
 
     void sizeofNode::print(printer &pout) const {
-      pout << "sizeof(" << *value << ')';
+      // Print the operand the way it was written: sizeof(x) keeps its
+      // parenthesesNode, which must not be wrapped in a second pair
+      if (value->type() & exprNodeType::parentheses) {
+        pout << "sizeof" << *value;
+      } else if (value->type() & (exprNodeType::type |
+                                  exprNodeType::vartype)) {
+        pout << "sizeof(" << *value << ')';
+      } else {
+        pout << "sizeof " << *value;
+      }
     }
 
     void sizeofNode::debugPrint(const std::string &prefix) const {
